@@ -352,10 +352,15 @@ def eval_op(op, ins, t_in, t_out):
     raise Unsupported(name)
 
 
-def evaluate(model, inputs, npu_executor=None):
-    """inputs: {tensor index: int64 array}.  npu_executor(op index, op, values) -> {tensor index: array} for ethos-u ops."""
+def evaluate(model, inputs, npu_executor=None, store=None, load=None):
+    """inputs: {tensor index: int64 array}.  npu_executor(op index, op, values) -> {tensor index: array} for ethos-u ops.
+    store(ti, value) is called for every value a CPU operator (or the caller, for inputs) produces; load(ti, value) returns the value a CPU
+    operator actually sees for operand ti (the caller may read it back from a memory image) - both optional."""
     sg = model["subgraphs"][0]
     vals = dict(inputs)
+    if store is not None:
+        for ti, v in inputs.items():
+            store(ti, v)
     for ti, t in enumerate(sg["tensors"]):
         if ti not in vals:
             d = read.tensor_data(model, 0, ti)
@@ -370,9 +375,13 @@ def evaluate(model, inputs, npu_executor=None):
         ins = [vals.get(i) if i >= 0 else None for i in op["inputs"]]
         if any(v is None and i >= 0 for v, i in zip(ins, op["inputs"])):
             raise Unsupported("operand of %s has no value" % op["op"])
+        if load is not None:
+            ins = [load(i, v) if i >= 0 else None for i, v in zip(op["inputs"], ins)]
         t_in = [sg["tensors"][i] if i >= 0 else None for i in op["inputs"]]
         t_out = [sg["tensors"][i] for i in op["outputs"]]
         outs = eval_op(op, ins, t_in, t_out)
         for i, v in zip(op["outputs"], outs):
             vals[i] = np.asarray(v).astype(np.int64)
+            if store is not None:
+                store(i, vals[i])
     return vals
